@@ -116,7 +116,14 @@ def degenerate_spectra():
                 ev = np.asarray(spectrum)[:neig]
                 wts = torch.tensor([1.0 + 0.3 * list(np.unique(ev)).index(v) for v in ev], dtype=torch.float64)   # constant on clusters
                 f = _loss_fn(method, neig, "lowest", withM, W, wts)
-                inputs = (a, _spd(n, rng, False).requires_grad_()) if withM else (a,)
+                if withM:
+                    # a pencil (A, M) whose generalised eigenvalues are exactly `spectrum`: A = L diag(b) L^T, M = L L^T
+                    # (with an arbitrary M the pencil of a degenerate A is not degenerate)
+                    L = rng.randn(n, n) + 3 * np.eye(n)
+                    a = torch.tensor((L * np.asarray(spectrum)) @ L.T, dtype=torch.float64).requires_grad_()
+                    inputs = (a, torch.tensor(L @ L.T, dtype=torch.float64).requires_grad_())
+                else:
+                    inputs = (a,)
                 # symmetric perturbations split the cluster: the function must not depend on the basis: use the
                 # analytic gradient against a symmetric finite difference along random symmetric directions
                 try:
@@ -139,6 +146,93 @@ def degenerate_spectra():
                     if not abs(num - ana) <= 1e-5 * max(1.0, abs(num)):
                         bad.append("%s %s M=%s: directional derivative %.8f, gradient gives %.8f" % (method, tagsp, withM, num, ana))
                         break
+    return "; ".join(bad[:4]) if bad else None
+
+
+def degenerate_spectra_complex():
+    """as degenerate_spectra for complex Hermitian A (and M): Hermitian directions, dL = Re <g, d>"""
+    bad = []
+    rng = np.random.RandomState(11)
+    n = 5
+    for method in ("custom_exacteig", "exacteig"):
+        for spectrum, tagsp in (([-1.0, 0.7, 0.7, 2.0, 3.1], "pair at 0.7"), ([-2.0, -2.0, 0.5, 0.5, 4.0], "two pairs")):
+            for withM in (True, False):
+                a = _base(n, rng, True, spectrum).requires_grad_()
+                neig = 4
+                W = torch.tensor(rng.randn(n, n) + 1j * rng.randn(n, n), dtype=torch.complex128)
+                W = W + W.conj().T
+                ev = np.asarray(spectrum)[:neig]
+                wts = torch.tensor([1.0 + 0.3 * list(np.unique(ev)).index(v) for v in ev], dtype=torch.float64)
+                f = _loss_fn(method, neig, "lowest", withM, W, wts)
+                if withM:
+                    # a pencil (A, M) whose generalised eigenvalues are exactly `spectrum`: A = L diag(b) L^H, M = L L^H
+                    L = rng.randn(n, n) + 1j * rng.randn(n, n) + 3 * np.eye(n)
+                    a = torch.tensor((L * np.asarray(spectrum)) @ L.conj().T, dtype=torch.complex128).requires_grad_()
+                    inputs = (a, torch.tensor(L @ L.conj().T, dtype=torch.complex128).requires_grad_())
+                else:
+                    inputs = (a,)
+                try:
+                    g = torch.autograd.grad(f(*inputs), inputs)
+                except Exception as ex:
+                    bad.append("complex %s %s M=%s: raises %s" % (method, tagsp, withM, str(ex)[:100]))
+                    continue
+                if not all(torch.isfinite(torch.view_as_real(gi)).all() for gi in g):
+                    bad.append("complex %s %s M=%s: gradient is not finite" % (method, tagsp, withM))
+                    continue
+                for trial in range(3):
+                    d = [torch.tensor(rng.randn(n, n) + 1j * rng.randn(n, n), dtype=torch.complex128) for _ in inputs]
+                    d = [di + di.conj().T for di in d]
+                    h = 1e-5
+                    with torch.no_grad():
+                        fp = f(*[x + h * di for x, di in zip(inputs, d)])
+                        fm = f(*[x - h * di for x, di in zip(inputs, d)])
+                    num = ((fp - fm) / (2 * h)).item()
+                    ana = sum((gi.conj() * di).sum().real.item() for gi, di in zip(g, d))
+                    if not abs(num - ana) <= 2e-5 * max(1.0, abs(num)):
+                        bad.append("complex %s %s M=%s: directional derivative %.8f, gradient gives %.8f" % (method, tagsp, withM, num, ana))
+                        break
+    return "; ".join(bad[:4]) if bad else None
+
+
+def nearly_degenerate_gap():
+    """two eigenvalues 1e-7 apart are distinct in float64: the dense path must give the gradient of torch.linalg.eigh
+    for a function that tells the two eigenvectors apart (real and complex, with and without M, full and partial)"""
+    bad = []
+    rng = np.random.RandomState(21)
+    n = 4
+    for cplx in (False, True):
+        for withM in (False, True):
+            for neig in (n, 3):
+                spectrum = [-1.0, 0.5, 0.5 + 1e-7, 2.0]
+                a0 = _base(n, rng, cplx, spectrum)
+                W = torch.tensor(rng.randn(n, n), dtype=torch.float64)
+                W = W + W.T
+                wts = torch.tensor([1.0, 2.0, -1.5, 0.7][:neig], dtype=torch.float64)
+
+                def loss(e, x):
+                    proj = (x * wts.to(x.dtype)) @ x.transpose(-2, -1).conj()
+                    return (e * wts).sum() + (W.to(x.dtype) * proj).sum().real
+                if withM:
+                    Lm = torch.linalg.cholesky(_spd(n, rng, cplx))
+                a = a0.clone().requires_grad_()
+                A = _sym(a)
+                if withM:
+                    # A = L C L^H, M = L L^H has the spectrum of C
+                    Aop, Mmat = Lm @ A @ Lm.transpose(-2, -1).conj(), Lm @ Lm.transpose(-2, -1).conj()
+                    e, x = symeig(xitorch.LinearOperator.m(_sym(Aop), is_hermitian=True), neig, "lowest",
+                                  M=xitorch.LinearOperator.m(_sym(Mmat), is_hermitian=True))
+                else:
+                    e, x = symeig(xitorch.LinearOperator.m(A, is_hermitian=True), neig, "lowest")
+                g, = torch.autograd.grad(loss(e, x), a)
+                ar = a0.clone().requires_grad_()
+                er, xr = torch.linalg.eigh(_sym(ar))
+                if withM:
+                    xr = torch.linalg.solve(Lm.transpose(-2, -1).conj(), xr)
+                gr, = torch.autograd.grad(loss(er[:neig], xr[:, :neig]), ar)
+                err = (g - gr).abs().max().item()
+                if not err <= 1e-3 * max(1.0, gr.abs().max().item()):
+                    bad.append("complex=%s M=%s neig=%d: gradient differs from the eigh reference by %.3e (scale %.3e)" % (
+                        cplx, withM, neig, err, gr.abs().max().item()))
     return "; ".join(bad[:4]) if bad else None
 
 
@@ -253,7 +347,7 @@ def matrix_free_svd():
     return "; ".join(bad) if bad else None
 
 
-TABLE = {"batched_partial_degeneracy": batched_partial_degeneracy, "decoupled_matrix": decoupled_matrix, "matrix_free_svd": matrix_free_svd,
+TABLE = {"nearly_degenerate_gap": nearly_degenerate_gap, "degenerate_spectra_complex": degenerate_spectra_complex, "batched_partial_degeneracy": batched_partial_degeneracy, "decoupled_matrix": decoupled_matrix, "matrix_free_svd": matrix_free_svd,
          "dense_path_gradients": dense_path_gradients, "implicit_gradients": implicit_gradients, "davidson_gradients": davidson_gradients,
          "degenerate_spectra": degenerate_spectra, "reused_option_dicts": reused_option_dicts, "svd_gradients": svd_gradients}
 
